@@ -21,6 +21,9 @@ CHECKS = {
  "C05": ("6/C05", "TLA+ CborGrammar.Admissible (code, position) oracle incl. the permitted lazy report; TLC model check; TLC trace validation of failing cbor_load executions with pre-filled result struct",
          "TLC checks machine = grammar on error code and position for all bounded head strings (incl. nesting limit and refused allocation). Every failing real execution is judged by TLC: NULL, nothing left allocated, all three result fields written, (code, position) in the admissible set computed by the grammar from the logged heads; eager and lazy reports of an item opened inside a chunked string are both accepted.",
          "Trusted: TLC, recorder (result struct pre-filled with 0xAB; raw field values logged). Bounded input space."),
+ "C06": ("6/C06", "TLA+ CborAlloc transaction pattern with fault schedules, TLC exhaustive (MC_AllocFault); exhaustive single-fault and fail-stop enumeration per scenario on the real code, each case judged by TLC from the allocator event log and argument snapshots (Trace_Alloc)",
+         "TLC checks the serve-or-refuse / unwind / report pattern for every operation length, refused request and schedule. On the real library every scenario (load of each corpus input, copy and serialize_alloc of each corpus tree, every builder, push/set/map add/add chunk at each growth step, build_tag) is first run fault-free to count its N requests and then 2N times (refuse k; refuse from k); for each run TLC folds the logged allocator events and requires: documented failure channel, only self-obtained blocks released or moved and none left, argument trees and reference counts identical before and after.",
+         "Trusted: TLC, the fault-injecting allocator installed via cbor_set_allocs, recorder. Crashes are observed by ASan/UBSan. Scenario set: see evidence rule."),
  "C07": ("6/C07", "TLA+ fixed-buffer contract (CborEncode.SerializeRet) judged by TLC on every recorded cbor_serialize / cbor_serialize_alloc / cbor_encode_* call (Trace_Serialize, Trace_EncDec); sentinel frame + ASan exact-size buffers",
          "For every tree and every buffer size 0..size+2, and every encoder x boundary value x buffer size 0..10, TLC judges the logged return value against the contract (size if it fits, else 0), that nothing outside the first n bytes (resp. beyond the returned count) was modified, and that serialize_alloc hands out a block of exactly the computed size holding exactly those bytes.",
          "Trusted: TLC; writes are observed by a two-sentinel frame and by ASan red zones. Relative clauses (agreement) are judged against the library's own size, so that a wrong encoding (C03) is not reported here."),
@@ -36,6 +39,9 @@ CHECKS = {
  "C12": ("6/C12", "TLA+ CborItems containers (capacity, growth, bounded/unbounded sequence semantics), TLC model check (MC_Items arr/map/chunk), TLC trace validation of container histories and of growth runs (Trace_Items, C12 clauses)",
          "TLC checks on the small pool that definite containers refuse exactly at capacity, out-of-range indexes are refused without change, size never exceeds capacity and growth is logarithmic. Real histories of push/set/replace/get (indexes 0..size+2), map add and add chunk on capacities 0..8 are replayed step by step against the abstract sequence; insertion runs up to thousands of elements are judged on logged capacity changes and allocator-counted reallocations.",
          "Trusted: TLC, recorder, allocator counters; the capacity after a growth step is read from the real container (any legal geometric policy is accepted). ASan observes out-of-bounds."),
+ "C13": ("6/C13", "TLA+ CborAllocEvents discipline folded by TLC over the logged allocator event stream of real workloads (Trace_Alloc); link-time interposition of libc allocator symbols; arena backing without libc",
+         "Every library operation of the workloads (decoding, describing, size, serialization, copy, release, streaming decoder, encoders, construction API, ownership histories) is bracketed in the allocator log. TLC tracks the live-block set from the events alone and requires: each block handed to realloc/free is live and from the installed allocator, released once, nothing live at quiescence, no event inside pure operations, and no direct libc allocator call during a library operation.",
+         "Trusted: TLC, the instrumenting allocator and the --wrap interposition (observation devices). Two backings: libc with always-moving realloc under ASan, and an mmap arena where a stray libc free aborts."),
  "C14": ("6/C14", "TLA+ reference decoder CborLoadRef (tokenisation + grammar) evaluated by TLC on logged bytes; TLC model check of the machine stopping at the first item; trace validation (Trace_Sequence)",
          "For every (x, y) pair and every concatenation recorded from the real cbor_load, TLC computes from the logged bytes what x denotes and requires x and x.y to give that tree and read = |x|, and the cbor_sequence loop to split a concatenation into exactly its items ending at the buffer end.",
          "Trusted: TLC, recorder. x ranges over seeded random well-formed items; y over empty, single bytes (all 256 for the first 12 x), items, garbage, structural bytes."),
